@@ -1,8 +1,30 @@
 from kernels import K
 
 # ---------------------------------------------------------------- C12
-# (kernels C12.a / C12.c / C12.e are owned by another builder: append, do not reorder)
+_DIRTUS = ['src/Variogram/DirParam.cpp']
+K('C12.a.reg', property='C12', engine='symex', harness='C12/lagrank.cpp', entry='k_lag_regular', tus=_DIRTUS,
+  bounds={'quick': 'regular lags: nlag any int in [1, 10^6], dpas > 0, tol >= 0, d arbitrary reals with |d| <= 2147483000*dpas'},
+  timeout_ms={'quick': 120000, 'thorough': 600000}, validate={'quick': 30, 'thorough': 60}, validate_doubles='dyadic',
+  what='DirParam::getLagRank, regular case: result ITEST or in [0,nlag); returned k has | |d| - k*dpas | <= tol*dpas; for tol <= 1/2 a distance '
+       'strictly inside the tolerance band of a lag k < nlag gets k and ITEST is returned only outside every open band',
+  out='floating-point rounding of the division/multiplications (band edges); ratios |d|/dpas beyond the int range (the (int) cast is undefined there); '
+      'tol > 1/2 (overlapping bands: only the "returned k is within tolerance" direction is claimed)',
+  assumptions=['real-arithmetic reading of the code', 'DirParam object is raw storage with _nPas, _dPas, _tolDist, _breaks initialised (getLagRank reads nothing else)'],
+  stubs=[])
+for _n, _tiers in ((1, ('quick', 'thorough')), (2, ('quick', 'thorough')), (3, ('quick', 'thorough')), (5, ('quick', 'thorough')), (8, ('thorough',))):
+    K('C12.a.irr.%d' % _n, property='C12', engine='symex', harness='C12/lagrank.cpp', entry='k_lag_irregular', tus=_DIRTUS,
+      defines={'all': {'VF_NLAG': _n}}, tiers=_tiers,
+      bounds={'quick': 'irregular lags: nlag = %d, %d non-decreasing breaks (arbitrary reals), d an arbitrary real' % (_n, _n + 1)},
+      timeout_ms={'quick': 120000, 'thorough': 600000}, validate={'quick': 30, 'thorough': 60}, validate_doubles='dyadic',
+      what='DirParam::getLagRank, irregular case: result k <=> breaks[k] < |d| <= breaks[k+1]; ITEST <=> no interval contains |d|',
+      out='breaks vectors whose size is not nlag+1 (nothing in DirParam ties npas to breaks.size(); shorter vectors are read out of bounds); unsorted breaks',
+      assumptions=['comparison-only code: the real reading is exact for finite doubles',
+                   'breaks has exactly nlag+1 values, non-decreasing (the documented "series of intervals")',
+                   'DirParam object is raw storage with _nPas, _dPas, _tolDist, _breaks initialised'],
+      stubs=[])
 
+
+# ---------------------------------------------------------------- C12.b (builder of C12.b / C05.e: pair loops)
 # ---- C12.b pair enumeration of Vario::_calculateGeneralSolution1 / 2
 _PAIR_TUS = ['src/Variogram/Vario.cpp', 'src/Db/Db.cpp', 'src/Variogram/DirParam.cpp', 'src/Space/ASpaceObject.cpp',
              'src/Space/SpacePoint.cpp', 'src/Space/SpaceTarget.cpp', 'src/Basic/AStringable.cpp', 'src/Basic/Utilities.cpp']
@@ -39,3 +61,30 @@ for _n in (3, 4):
           what='Vario::_calculateGeneralSolution%d loop logic with the real Db::getDistance1D / FFFF / IFFFF: every unordered pair of usable samples accepted by keepPair, with a lag, whose first-axis separation is <= maxdist reaches the estimator exactly once with its lag and distance; no masked / weight-undefined / rejected / lag-less pair does; no pair twice' % _sol,
           out='pairs whose first-axis separation exceeds maxdist (may or may not be visited: their distance exceeds maxdist, so getLagRank gives them no lag); undefined first coordinates; dates (C12.b.date); the accumulated values; the vorder (internal storage) branch',
           assumptions=_PAIR_ASSUME, stubs=_PAIR_STUBS)
+
+# ---- C12.b*.date: same loops when VarioParam::isDateUsed answers true (inner loop restarts at 0, keepPair is oriented)
+for _sol, _entry in ((1, 'k_pairs1'), (2, 'k_pairs2')):
+    K('C12.b%d.date.3' % _sol, property='C12', engine='symex', harness='C12/pairs.cpp', entry=_entry, tus=_PAIR_TUS,
+      defines={'all': {'VF_NECH': 3, 'VF_DATE': 1}},
+      bounds={'quick': 'exactly 3 samples, dates in use; otherwise as C12.b; keepPair answers per ordered pair'},
+      timeout_ms={'quick': 120000, 'thorough': 600000}, validate={'quick': 30, 'thorough': 60}, validate_doubles='int',
+      what='Vario::_calculateGeneralSolution%d with dates in use (inner loop from 0): every ordered pair (i,j), i != j, of usable samples accepted by keepPair(T_i,T_j), with a lag, whose first-axis separation is <= maxdist reaches the estimator exactly once; no other ordered pair and no (i,i) pair does' % _sol,
+      out='as C12.b', assumptions=_PAIR_ASSUME, stubs=_PAIR_STUBS)
+
+# ---- C12.d direction / tolerance test of a pair (builder of C12.b)
+_GEOM_TUS = ['src/Variogram/Vario.cpp', 'src/Geometry/BiTargetCheckGeometry.cpp', 'src/Geometry/ABiTargetCheck.cpp',
+             'src/Geometry/GeometryHelper.cpp', 'src/Space/SpaceRN.cpp', 'src/Space/ASpace.cpp', 'src/Space/ASpaceObject.cpp',
+             'src/Space/SpacePoint.cpp', 'src/Space/SpaceTarget.cpp', 'src/Basic/AStringable.cpp', 'src/Basic/Utilities.cpp',
+             'src/Basic/VectorHelper.cpp']
+K('C12.d', property='C12', engine='symex', harness='C12/geom.cpp', entries=['k_geom_angle', 'k_geom_cylinder', 'k_geom_bench', 'k_geom_all_axis'], tus=_GEOM_TUS,
+  
+  bounds={'quick': '2-D; both points arbitrary reals; symmetric or asymmetric calculation; four entries: (angle) any non-null direction (not normalised), psmin = cos(tolang) any real in [0,1], cylinder and bench not used; (cylinder) any direction, psmin = 0, cylinder radius undefined / <= 0 / any real; (bench) any direction, psmin = 0, bench undefined / <= 0 / any real; (all) direction (1,0), psmin, cylinder radius and bench all arbitrary together'},
+  # one of the two z3 strategies answers each query within a few seconds, the other does not answer: the per-query
+  # timeout is what the kernel waits for
+  timeout_ms={'quick': 40000, 'thorough': 600000}, validate={'quick': 30, 'thorough': 60}, validate_doubles='dyadic',
+  what='Vario::keepPair + BiTargetCheckGeometry::isOK + SpacePoint::getDistance/getIncrement + SpaceRN::_getDistance/_getIncrement: pair accepted iff (coincident points) or (P^2 >= psmin^2 D2 C2 and D2 C2 - P^2 <= cylrad^2 C2 when the cylinder is used and |dy| <= bench when the bench is used); |dist| = Euclidean distance, negative iff asymmetric and P < 0',
+  out='tolang -> psmin (cosine); floating rounding of ps = P / sqrt(D2 C2) and of the sums of products at the tolerance boundary; the three tests together for a direction off the first axis (each test alone is decided for every direction); 3-D; other spaces than RN; fault / date / code checkers',
+  assumptions=['real-arithmetic reading (sqrt exact: r >= 0, r^2 = x; no rounding)', 'direction vector is not null'],
+  stubs=['ASpaceObject(const ASpace*) -> keeps the pointer instead of cloning the space; ~ASpaceObject -> does not delete it',
+         '__dynamic_cast (solver build only) -> identity: the single checker is a BiTargetCheckGeometry (single inheritance, offset 0)',
+         'Vario object is raw storage: _biPtsPerDirection = 1, _bipts = {the really constructed BiTargetCheckGeometry}; its _psmin is then set to the symbolic value'])
